@@ -62,6 +62,7 @@ func (m *Mutex) TryLock() bool {
 	s.point(&op{kind: "Mutex.TryLock", obj: m.h.id, enabled: func() bool { return true }})
 	s.touch(&m.h.chain, 3)
 	if m.locked {
+		s.cur.polled = true
 		return false
 	}
 	m.locked = true
